@@ -891,12 +891,47 @@ func (ea ExpressionAttribute) Write(w io.Writer, indent int) (err error) {
 	if err = writeIndent(w, indent, ea.Name, "={\n"); err != nil {
 		return err
 	}
-	for _, line := range lines {
+	inRawString := rawStringContinuationLines(lines)
+	for i, line := range lines {
+		if inRawString[i] {
+			// The line is part of a raw string literal, indenting it would change the string.
+			if _, err = io.WriteString(w, line+"\n"); err != nil {
+				return err
+			}
+			continue
+		}
 		if err = writeIndent(w, indent, line, "\n"); err != nil {
 			return err
 		}
 	}
 	return writeIndent(w, indent, "}")
+}
+
+// rawStringContinuationLines reports, for each line of Go code, whether the line starts inside a
+// raw string literal that began on an earlier line.
+func rawStringContinuationLines(lines []string) []bool {
+	inside := make([]bool, len(lines))
+	src := []byte(strings.Join(lines, "\n"))
+	var s scanner.Scanner
+	fset := token.NewFileSet()
+	file := fset.AddFile("", fset.Base(), len(src))
+	s.Init(file, src, nil, scanner.ScanComments)
+	for {
+		pos, tok, lit := s.Scan()
+		if tok == token.EOF {
+			break
+		}
+		if tok != token.STRING || !strings.HasPrefix(lit, "`") {
+			continue
+		}
+		first := file.Line(pos) // 1-based
+		for i := 0; i < strings.Count(lit, "\n"); i++ {
+			if first+i < len(inside) {
+				inside[first+i] = true
+			}
+		}
+	}
+	return inside
 }
 
 // <a { spread... } />
